@@ -109,7 +109,15 @@ def to_surface_mcnp(key, bound_cond,  # pylint: disable=too-many-arguments
                        compl_params, idorigin)
     if transform_id:
         idorigin.append(transform_id)
-        surf = transformation(transform_parsed[int(transform_id)], surf)
+        tr_number = int(transform_id)
+        if tr_number < 0:
+            raise ValueError(f'surface {key} is periodic with surface '
+                             f'{-tr_number}; periodic boundaries are not '
+                             'supported')
+        if tr_number not in transform_parsed:
+            raise ValueError(f'surface {key} refers to transformation '
+                             f'TR{tr_number}, which is not defined')
+        surf = transformation(transform_parsed[tr_number], surf)
     return surf
 
 
